@@ -443,11 +443,12 @@ func builtinStringSubstr(call FunctionCall) Value {
 		return stringValue("")
 	}
 
-	if start+length >= size {
+	if length >= size-start {
 		// Cap length to be to the end of the string
 		// start = 3, length = 5, size = 4 [0, 1, 2, 3]
 		// 4 - 3 = 1
 		// target[3:4]
+		// (compared this way round because start+length overflows for huge lengths such as Infinity)
 		length = size - start
 	}
 
